@@ -16,7 +16,7 @@ def scenarios(tier, seed):
             # unsatisfiable systems whose smallest conflict has 3..6 constraints, with the failure diagnostics on and off
             + fam_fault.family_bigcore(tier, seed)
             # arithmetic next to list.sum while the list grows and shrinks between calls: no width bookkeeping may raise
-            + [x for x in fam_list.family_fixed(tier, seed) if "/sum_arith/" in x["id"]])
+            + [x for x in fam_list.family_fixed(tier, seed) if "/sum_arith/" in x["id"] or "/idx_merge/" in x["id"]])
 
 
 def run(tier, seed, limit=0):
